@@ -149,6 +149,7 @@ type Frame struct {
 	rangeInfo map[*ssa.Range]*rangeInfo
 	id        int
 	noKeep    bool // the next heap havoc must not preserve monitor-protected state
+	lockKeep  bool // ... except the state of lock-style monitors: the code reached cannot contain a function that works on it
 	parent    *Frame          // the frame this one is inlined into
 	ownBoxes  map[string]*Loc // boxed locals of this frame (by reference term) whose address has not escaped
 	pendingArgs []Val         // arguments of the call being dispatched (for escape marking)
